@@ -1,4 +1,5 @@
 import Momo.Proof.SortApi
+import Momo.Proof.TrEqMisc
 /-!
 # C17 — Hash sorting groups equal items and its searches agree with a linear scan
 
@@ -338,5 +339,16 @@ example : radixSorterSort (plainMem id) 1 8 noGroupFn #[200, 3, 77, 200, 1, 0, 2
 example : find (plainMem exHash) exEq exSorted 9 (5, 99) 18446744073709551615 = none := by decide +kernel
 
 end Examples
+
+/-! ### The code itself, not only the hand-written model (T1b)
+
+`Momo.Tr.*` are Lean definitions regenerated on every check by tools/translate.py from the *function bodies* in the
+current headers (C++ integer semantics explicit: wrap-around of `size_t`, promotion and truncation of the byte fields,
+the `while` loop). The theorems below are about those generated definitions. -/
+/-- `HashSorter::pvGetStepCount` as translated from the current header is the model's `stepCount` -/
+theorem C17_stepCount_translated (count : Nat) : Tr.hs_pvGetStepCount count = stepCount count :=
+  TrEq.tr_stepCount count
+
+example : Tr.hs_pvGetStepCount 5000 = 2 := by decide
 
 end Momo.Sort
